@@ -255,7 +255,7 @@ static int disasm_pop(
   {
     snprintf(instruction, length, "%s %s, [%s]",
       table_unsp[n].instr,
-      regs[operand_a + 1],
+      regs[(operand_a + 1) & 0x7],
       regs[operand_b]);
   }
     else
